@@ -223,6 +223,10 @@ def check(pid, tier, seed):
     if pid in ("C11", "C01"):
         from . import hubprop
         hubcov = hubprop.hub_part(R, pid, tier, seed)
+    if pid == "C09":
+        # the stored SHIP id reaches the connection through the hub (ServeHTTP / connectFoundService): two real hubs
+        from . import twohubs
+        hubcov = dict(twohubs.th_part(R, pid, tier, seed), obligations=0, discharged=0)
     R.coverage = {
         "obligations": len(obligations) + (hubcov["obligations"] if hubcov else 0),
         "discharged": discharged + (hubcov["discharged"] if hubcov else 0),
